@@ -23,7 +23,7 @@ package dst
 //@ ensures arg_unchanged: forall j int :: row(decs)[j] == old(row(decs)[j])
 //@ ensures arg_not_retained: len(decs) == 0 || arr(*d) != arr(decs)
 //@ ensures array_old_or_fresh: arr(*d) == old(arr(*d)) || fresh(arr(*d))
-//@ ensures others_untouched: forall a int, j int :: a != old(arr(*d)) && wasAllocated(a) ==> elem(string, a, j) == old(elem(string, a, j))
+//@ ensures others_untouched: forall a int :: (a != old(arr(*d)) || old(cap(*d)) == 0) && wasAllocated(a) ==> rowAt(string, a) == old(rowAt(string, a))
 
 //@ func (d *Decorations) Prepend
 //@ requires owns: len(decs) == 0 || cap(*d) == 0 || arr(*d) != arr(decs)
@@ -34,7 +34,7 @@ package dst
 //@ ensures arg_unchanged: forall j int :: row(decs)[j] == old(row(decs)[j])
 //@ ensures arg_not_retained: len(decs) == 0 || arr(*d) != arr(decs)
 //@ ensures array_old_or_fresh: arr(*d) == old(arr(*d)) || fresh(arr(*d))
-//@ ensures others_untouched: forall a int, j int :: a != old(arr(*d)) && wasAllocated(a) ==> elem(string, a, j) == old(elem(string, a, j))
+//@ ensures others_untouched: forall a int :: a != old(arr(*d)) && wasAllocated(a) ==> rowAt(string, a) == old(rowAt(string, a))
 
 //@ func (d *Decorations) Replace
 //@ requires owns: len(decs) == 0 || cap(*d) == 0 || arr(*d) != arr(decs)
@@ -44,7 +44,7 @@ package dst
 //@ ensures arg_unchanged: forall j int :: row(decs)[j] == old(row(decs)[j])
 //@ ensures arg_not_retained: len(decs) == 0 || arr(*d) != arr(decs)
 //@ ensures array_old_or_fresh: arr(*d) == old(arr(*d)) || fresh(arr(*d))
-//@ ensures others_untouched: forall a int, j int :: a != old(arr(*d)) && wasAllocated(a) ==> elem(string, a, j) == old(elem(string, a, j))
+//@ ensures others_untouched: forall a int :: a != old(arr(*d)) && wasAllocated(a) ==> rowAt(string, a) == old(rowAt(string, a))
 
 //@ func (d *Decorations) Clear
 //@ modifies *d
